@@ -50,7 +50,7 @@ theorem yo_unique (y1 y2 : Int) (o1 o2 : Nat) (h1 : 1 ≤ o1 ∧ o1 ≤ yearLen 
 
 /-- a valid (year, ordinal) pair lies in the supported year range exactly when its day number lies
 between the day numbers of MIN and MAX -/
-theorem range_iff (Y : Int) (o : Nat) (ho : 1 ≤ o ∧ o ≤ yearLen Y) :
+theorem range_iff_iso (Y : Int) (o : Nat) (ho : 1 ≤ o ∧ o ≤ yearLen Y) :
     (MIN_YEAR ≤ Y ∧ Y ≤ MAX_YEAR) ↔
       (dayNumYo MIN_YEAR 1 ≤ dayNumYo Y o ∧ dayNumYo Y o ≤ dayNumYo MAX_YEAR 365) := by
   have hMIN : MIN_YEAR = -262143 := rfl
@@ -158,10 +158,10 @@ theorem iso_week_spec' (y : Int) (o : Nat) (hy : MIN_YEAR ≤ y ∧ y ≤ MAX_YE
 
 /-! ### `from_isoywd_opt` -/
 
-theorem optI32_some {x : Int} (h1 : -2147483648 ≤ x) (h2 : x ≤ 2147483647) : optI32 x = some x := by
+theorem optI32_some_iso {x : Int} (h1 : -2147483648 ≤ x) (h2 : x ≤ 2147483647) : optI32 x = some x := by
   simp [optI32, inI32, I32_MIN, I32_MAX, h1, h2]
 
-theorem optI32_none {x : Int} (h : x < -2147483648 ∨ 2147483647 < x) : optI32 x = none := by
+theorem optI32_none_iso {x : Int} (h : x < -2147483648 ∨ 2147483647 < x) : optI32 x = none := by
   simp only [optI32, inI32, I32_MIN, I32_MAX]
   rcases h with h | h
   · have : ¬ (-2147483648 ≤ x) := by omega
@@ -248,10 +248,10 @@ theorem isoywd_eval (y : Int) (w : Nat) (wd : Weekday)
     refine ⟨y - 1, w * 7 + k + yearLen (y - 1) - dl, by omega, by omega, ?_, ?_⟩
     · unfold dayNumYo; push_cast; omega
     · by_cases hi : -2147483648 ≤ y - 1 ∧ y - 1 ≤ 2147483647
-      · rw [optI32_some hi.1 hi.2]
+      · rw [optI32_some_iso hi.1 hi.2]
         dsimp only
         rw [from_year_spec, pnd, from_oaf_spec]
-      · rw [optI32_none (by omega)]
+      · rw [optI32_none_iso (by omega)]
         dsimp only
         congr 1; symm; apply ite_neg'; intro h; omega
   · rw [if_neg hc]
@@ -267,10 +267,10 @@ theorem isoywd_eval (y : Int) (w : Nat) (wd : Weekday)
       refine ⟨y + 1, w * 7 + k - dl - yearLen y, by omega, by omega, ?_, ?_⟩
       · unfold dayNumYo; push_cast; omega
       · by_cases hi : -2147483648 ≤ y + 1 ∧ y + 1 ≤ 2147483647
-        · rw [optI32_some hi.1 hi.2]
+        · rw [optI32_some_iso hi.1 hi.2]
           dsimp only
           rw [from_year_spec, from_oaf_spec]
-        · rw [optI32_none (by omega)]
+        · rw [optI32_none_iso (by omega)]
           dsimp only
           congr 1; symm; apply ite_neg'; intro h; omega
 
@@ -291,7 +291,7 @@ theorem ctor_isoywd' (y : Int) (w : Nat) (wd : Weekday) :
         isoDayNum y w wd.toNat ≤ dayNumYo MAX_YEAR 365)) := by
   by_cases hw : 1 ≤ w ∧ w ≤ YearFlags.nisoweeks (flagsOf y)
   · obtain ⟨Y, o, ho1, ho2, hdn, hev⟩ := isoywd_eval y w wd hw
-    have hr := range_iff Y o ⟨ho1, ho2⟩
+    have hr := range_iff_iso Y o ⟨ho1, ho2⟩
     rw [hdn] at hr
     have hex := (isoWeekExists_iff y w).mpr hw
     refine ⟨_, hev, ?_, ?_⟩
